@@ -6,8 +6,8 @@ import Hms.Check.Syntax
 `check : PProg → List Diag` mirrors the analyzer's per-construct rules
 (`analyzer/expression.go`, `statement.go`, `topLevel.go functionSignature /
 functionDefinition / analyzeParams`, `analyzer.go analyzeModule`) for the core language,
-*after* the proposed repairs A1–A7, A9, A10 (DESIGN §9). Error recovery is modelled too
-(`unknown` results, dropped arguments, the default arm of a `match` analysed twice …) because
+*after* the repairs A1–A7, A9, A10, A14 (DESIGN §9). Error recovery is modelled too
+(`unknown` results, dropped arguments …) because
 the behavioural tie compares the multiset of error classes on ill-typed programs as well.
 
 State of the Go analyzer and where it lives here:
@@ -626,9 +626,9 @@ def checkArms (Γ : Ctx) (ctl : Ty) (st : MSt) : PArms → ArmsRes
         | some t => ({ st with rt := t }, [])
         | none => ({ st with hadErr := true }, tcErr true a.ty st.rt .branchMismatch)
     if lits.hasDefault then
-      -- the action of a default arm is analysed a second time
+      -- (the action of a default arm is analysed once: repair A14)
       let r := checkArms Γ ctl { st1 with dflt := some a.tys } rest
-      { errs := a.errs ++ e1 ++ a.errs ++ r.errs, st := r.st, ex := a.ex || r.ex, tys := r.tys }
+      { errs := a.errs ++ e1 ++ r.errs, st := r.st, ex := a.ex || r.ex, tys := r.tys }
     else
       let l := checkLits Γ ctl lits
       let r := checkArms Γ ctl st1 rest
